@@ -855,7 +855,7 @@ pub fn run_explore(property: &'static str, tier: &str, seed: u64) -> i32 {
         eprintln!("MACHINERY: {} missing (the check script builds it)", cli_bin());
         return 2;
     }
-    let cap = Duration::from_secs(std::env::var("VERIF_WALL_CAP_S").ok().and_then(|s| s.parse().ok()).unwrap_or(if thorough { 20 * 60 } else { 300 }));
+    let cap = Duration::from_secs(std::env::var("VERIF_WALL_CAP_S").ok().and_then(|s| s.parse().ok()).unwrap_or(if thorough { 12 * 60 } else { 300 }));
     let threads = std::thread::available_parallelism().map(|n| n.get()).unwrap_or(8);
     let shared = std::sync::Arc::new(Shared {
         property,
@@ -1100,7 +1100,7 @@ pub fn run_c16(tier: &str, seed: u64) -> i32 {
         eprintln!("MACHINERY: {} missing (the check script builds it)", cli_bin());
         return 2;
     }
-    let cap = Duration::from_secs(std::env::var("VERIF_WALL_CAP_S").ok().and_then(|s| s.parse().ok()).unwrap_or(if thorough { 20 * 60 } else { 300 }));
+    let cap = Duration::from_secs(std::env::var("VERIF_WALL_CAP_S").ok().and_then(|s| s.parse().ok()).unwrap_or(if thorough { 12 * 60 } else { 300 }));
     let corpus = corpus();
     let mut configs: Vec<(usize, usize, bool)> = vec![];
     if thorough {
